@@ -577,8 +577,13 @@ func (h *HttpServer) SetCallStateCacheEntries(n int) {
 func (h *HttpServer) SetTokenTTL(d time.Duration) {
 	h.tokenTTL = d
 	// Rebuild the call cache so a cached call can never outlive the token
-	// that names it.
-	h.callStates = newCallStateCache(defaultCallStateCacheEntries, d)
+	// that names it — at the size the operator configured, so that a cache
+	// disabled with SetCallStateCacheEntries(0) stays disabled.
+	n := defaultCallStateCacheEntries
+	if h.callStates != nil {
+		n = h.callStates.max
+	}
+	h.callStates = newCallStateCache(n, d)
 }
 
 // SetUploadURLProvider configures a provider that issues pre-signed
